@@ -14,3 +14,4 @@ import Props.C17
 #print axioms C17.rangeFold_sound
 #print axioms C17.sumRange_sound_partial
 #print axioms C17.sumRange_counterexample
+#print axioms C17.sumRange_sound
